@@ -763,6 +763,14 @@ Lemma gap_quirk_witness :
   concat (gaps (final ex_quirk)) = [(9, 1)].   (* the gap (10, 2) is gone *)
 Proof. repeat split; vm_compute; reflexivity. Qed.
 
+(* ---------------------------------------------------------------- converse of dedup: an offset determines its constant *)
+Theorem offset_determines_thm cmds k1 k2 d1 d2 s off : wf_cmds cmds -> guard cmds ->
+  added cmds k1 d1 s off -> added cmds k2 d2 s off -> slice d1 0 s = slice d2 0 s.
+Proof.
+  intros W G A1 A2. destruct (fill_exact_thm cmds W G) as (_ & F & _).
+  rewrite <- (F k1 d1 s off A1). apply (F k2 d2 s off A2).
+Qed.
+
 (* ---------------------------------------------------------------- frame: what one add must NOT change *)
 Theorem add_frame_thm p d s p' r : Inv p -> wf_cmd d s -> cp_add p d s = (p', r) -> psize p' <= 4294967296 ->
   (forall j n, In n (nth j (trees p) []) -> In n (nth j (trees p') [])) /\
@@ -827,6 +835,40 @@ Proof.
   split; [apply pool_2g_inv|]. split; [unfold wf_cmd; simpl; lia|]. split; [reflexivity|]. split; vm_compute; reflexivity.
 Qed.
 
+(* ---------------------------------------------------------------- the log of embed_const_pool covers the image exactly *)
+Lemma ctz_pow2 k : ctz (pow2 k) = k.
+Proof.
+  induction k; [reflexivity|]. rewrite pow2_S. pose proof (pow2_gt0 k).
+  destruct (pow2 k) as [|q|q] eqn:E; try lia. simpl in *. congruence.
+Qed.
+
+Theorem log_layout_thm cmds : wf_cmds cmds -> guard cmds -> 0 < psize (final cmds) ->
+  let p := final cmds in
+  let w := fst (log_layout p) in let c := snd (log_layout p) in
+  (w = 1 \/ w = 2 \/ w = 4 \/ w = 8) /\ w * c = psize p /\ w <= pmin p /\ pmin p mod w = 0 /\ (pmin p <= 8 -> w = pmin p).
+Proof.
+  intros W G Pos p w c. fold p in Pos.
+  pose proof (sp_inv2 _ _ (final_spec cmds W G)) as J. fold (final cmds) in J. fold p in J.
+  destruct (Z.eq_dec (pmin p) 0) as [Z0|NZ]; [destruct (i2_empty _ J Z0); lia|].
+  destruct (i2_mn_pow _ J) as [Z0|(k & Lk & Ek)]; [lia|].
+  pose proof (i2_mn_div _ J NZ) as Dv.
+  unfold w, c, log_layout. replace (psize p =? 0) with false by (symmetry; apply Z.eqb_neq; lia). cbn [fst snd].
+  rewrite Ek, ctz_pow2.
+  set (m := Nat.min k 3).
+  assert (Hm : (m <= k)%nat /\ (m <= 3)%nat) by (unfold m; lia).
+  pose proof (pow2_gt0 m) as Pm. pose proof (pow2_mono m k ltac:(lia)) as Mk.
+  assert (Dw : psize p mod pow2 m = 0) by (apply (mod_pow2_le _ m k); [lia|rewrite <- Ek; auto]).
+  split.
+  { destruct m as [|[|[|[|m']]]]; try lia; vm_compute; tauto. }
+  split.
+  { rewrite (Z.div_mod (psize p) (pow2 m)) at 2 by lia. rewrite Dw. lia. }
+  split; [lia|]. split.
+  { apply (mod_pow2_le _ m k); [lia|]. apply Z.mod_same. pose proof (pow2_gt0 k). lia. }
+  intros L8. assert (k <= 3)%nat.
+  { destruct (Nat.le_gt_cases k 3); auto. pose proof (pow2_mono 4 k ltac:(lia)) as X. change (pow2 4) with 16 in X. lia. }
+  unfold m. rewrite Nat.min_l by lia. reflexivity.
+Qed.
+
 (* ---------------------------------------------------------------- the model is the one determined by model_params *)
 Theorem params_used :
   (forall off sz, gap_class off sz = gap_class_of (par_gap_chain model_params) (par_gap_else model_params) off sz) /\
@@ -848,7 +890,10 @@ Theorem params_used :
      cp_fill p = fold_left (fun buf t => fold_left (fun b n => if n_shared n then b else write_at b (n_off n) (n_key n)) t buf)
                            (trees p) (repeat 0 (Z.to_nat (psize p)))) /\
   (forall z, wrap_i32 z = (z + 2 ^ (par_new_const_disp_bits model_params - 1)) mod 2 ^ par_new_const_disp_bits model_params
-                          - 2 ^ (par_new_const_disp_bits model_params - 1)).
+                          - 2 ^ (par_new_const_disp_bits model_params - 1)) /\
+  (forall p, psize p <> 0 ->
+     log_layout p = (pow2 (Nat.min (ctz (pmin p)) (par_log_max_log2 model_params)),
+                     psize p / pow2 (Nat.min (ctz (pmin p)) (par_log_max_log2 model_params)))).
 Proof.
   split; [intros; reflexivity|]. split; [reflexivity|]. split.
   { intros s. unfold valid_size. simpl. split.
@@ -857,7 +902,8 @@ Proof.
   split.
   { intros s i H. simpl in H. repeat (destruct H as [H|H]; [inversion H; subst; repeat split; simpl; lia|]). destruct H. }
   split; [intros; reflexivity|]. split; [intros; reflexivity|]. split; [intros; reflexivity|].
-  split; intros; reflexivity.
+  split; [intros; reflexivity|]. split; [intros; reflexivity|].
+  intros p H. unfold log_layout. replace (psize p =? 0) with false by (symmetry; apply Z.eqb_neq; auto). reflexivity.
 Qed.
 
 (* ---------------------------------------------------------------- non-vacuity of later theorems' hypotheses *)
@@ -872,3 +918,11 @@ Example offset_truncation_general_hypotheses_satisfiable :
   Inv pool_4g /\ psize pool_4g = 4294967296 /\ 8 <= Z.of_nat (length [1; 2; 3; 4; 5; 6; 7; 8]) /\
   tree_get (nth 3 (trees pool_4g) []) (slice [1; 2; 3; 4; 5; 6; 7; 8] 0 8) = None /\ nth 3 (gaps pool_4g) [] = [].
 Proof. split; [apply pool_4g_inv|]. repeat split; vm_compute; try reflexivity. discriminate. Qed.
+
+Example log_layout_example :
+  0 < psize (final ex_unit_test) /\ log_layout (final ex_unit_test) = (1, 64) /\
+  log_layout (final [([1; 2; 3; 4; 5; 6; 7; 8; 9; 10; 11; 12; 13; 14; 15; 16], 16)]) = (8, 2) /\ log_layout cp_init = (0, 0).
+Proof. repeat split; vm_compute; reflexivity. Qed.
+
+Example offset_determines_example : added ex_unit_test 2 (repeat 0 32) 4 4 /\ added ex_unit_test 3 (repeat 0 32) 4 4.
+Proof. repeat split; vm_compute; reflexivity. Qed.
